@@ -31,7 +31,7 @@ from . import poolharness as ph
 JOBS = int(os.environ.get("VERIF_JOBS") or 0) or (os.cpu_count() or 4)
 INVARIANTS = ["TypeOK", "NoDuplicate", "SlotsRestored", "SlotsConserved", "NoOrphanSocket", "BlockBound", "OnlyUrllib3Errors",
               "InterruptsPropagate", "InterruptInFlight"]
-ACTIONS = ["StartReq", "PreFail", "GetConn", "Connect", "Send", "Recv", "Preload", "Ok", "Except", "Finally", "After",
+ACTIONS = ["StartReq", "PreFail", "Sleep", "GetConn", "Connect", "Send", "Recv", "Preload", "Ok", "Except", "Finally", "After",
            "DisposeResp", "PeerCut", "Finish"]
 
 MC_CFG = """SPECIFICATION Spec
@@ -44,6 +44,7 @@ CONSTANTS
   MaxHeld = {held}
   Cuts = {cuts}
   BadArgs = {badargs}
+  HeadOutcomes <- {head}
   KnownDefects <- {defects}
   TreeTraits <- {traits}
   ShardK = {k}
@@ -68,11 +69,12 @@ CONSTANTS
   MaxHeld = 0
   Cuts = FALSE
   BadArgs = FALSE
+  HeadOutcomes <- TrNone
   KnownDefects <- TrNone
   TreeTraits <- TrNone
 CHECK_DEADLOCK FALSE
 """
-ALL = dict(ns="{1, 2}", rets='{"F", "0", "1", "R2"}', routes='{"direct", "fwd"}', modes="{1, 2, 3, 4}", badargs="FALSE", sample=1)
+ALL = dict(ns="{1, 2}", rets='{"F", "0", "1", "R2"}', routes='{"direct", "fwd"}', modes="{1, 2, 3, 4}", badargs="FALSE", sample=1, head="MCNoHead")
 
 
 TRAITS = {"v": None, "put_without_checkout": None}
@@ -100,11 +102,14 @@ def detect_traits():
 def plan_cfg(plan, k=1, s=0, emit=False, invs=True, defects="MCNoDefects"):
     d = dict(ALL)
     d.update(plan)
+    d.pop("shards", None)
     return MC_CFG.format(k=k, s=s, defects=defects, traits=detect_traits(), emit="ACTION_CONSTRAINT Emit" if emit else "",
                          invs="\n".join("INVARIANT " + i for i in INVARIANTS) if invs else "", **d)
 
 
 # plans: (name, constants).  The state space of each plan is partitioned exactly by the shards.
+EDGE = dict(maxreqs=1, first="MCEdge", later="MCMicro", disp="MCDispAll", held=0, cuts="FALSE", rets='{"F", "1"}',
+            ns="{1}", routes='{"direct"}', modes="{2, 3}", head="MCHead", shards=1)
 # quick: the same products, sampled by TLC itself (SampleM: index sum 0 modulo 3 -- pairwise over configuration x
 # outcome x disposal, see MC_Pool.tla); thorough: the full products.
 QUICK_PLANS = [
@@ -112,17 +117,22 @@ QUICK_PLANS = [
                   badargs="TRUE", sample=3)),
     ("2req", dict(maxreqs=2, first="MCTinyS", later="MCMicro", disp="MCDispMicro", held=1, cuts="TRUE",
                   rets='{"F", "1"}', ns="{1}", routes='{"direct"}', badargs="TRUE", sample=3)),
+    # small and exhaustive (one shard): will-close replies x mid-body faults, HTTP/1.0, 204, and HEAD requests with
+    # Content-Length / chunked / close-delimited headers, on the streaming modes, crossed with every disposal
+    ("edge", EDGE),
 ]
-COVPLAN_QUICK = dict(maxreqs=2, first="MCTinyS", later="MCMicro", disp="MCDispMicro", held=1, cuts="TRUE",
+COVPLAN_QUICK = dict(maxreqs=2, first="MCCov", later="MCCov", disp="MCDispTwo", held=1, cuts="TRUE",
                      rets='{"1"}', ns="{1}", routes='{"direct"}', modes="{2, 4}", badargs="TRUE")
 THOROUGH_PLANS = [
-    ("1req-full", dict(maxreqs=1, first="MCAll", later="MCReps", disp="MCDispAll", held=0, cuts="FALSE", badargs="TRUE")),
+    ("1req-full", dict(maxreqs=1, first="MCAll", later="MCReps", disp="MCDispAll", held=0, cuts="FALSE", badargs="TRUE",
+                       head="MCHead")),
     ("2req", dict(maxreqs=2, first="MCTinyS", later="MCMicro", disp="MCDispMicro", held=1, cuts="TRUE",
                   rets='{"F", "1"}', ns="{1}", routes='{"direct"}', badargs="TRUE")),
     ("2req-wide", dict(maxreqs=2, first="MCTiny", later="MCTiny", disp="MCDispSmall", held=1, cuts="TRUE",
                        rets='{"0", "R2"}', ns="{2}")),
     ("3req", dict(maxreqs=3, first="MCMicro", later="MCMicro", disp="MCDispMicro", held=1, cuts="TRUE",
                   rets='{"F", "1"}', ns="{1}", routes='{"direct"}', modes="{2, 4}", badargs="TRUE")),
+    ("edge", dict(EDGE, maxreqs=2, held=1, disp="MCDispSmall", shards=0)),
 ]
 # named deviations: (constant, clause TLC must report, constants of a small run that reaches it)
 SMALL = dict(maxreqs=2, first="MCSmall", later="MCTiny", disp="MCDispAll", held=1, cuts="FALSE", ns="{1}",
@@ -137,6 +147,8 @@ DEVIATIONS = [
     ("MCPutWithoutCheckout", "SlotsConserved", SMALLB),    # finding C01-F2: placeholder given back without a checkout
     ("MCSleepBeforeDrain", "SlotsRestored", SMALLS),      # back-off before drain_conn(); the sleep fails
     ("MCRead1EndDoesNotClose", "SlotsRestored", SMALLS),   # read1() delivers the last byte without closing
+    ("MCHeadShortcutOutsideCatcher", "SlotsRestored", EDGE),   # read_chunked's HEAD shortcut outside _error_catcher
+    ("MCUncleanExitClosesConnOnly", "SlotsRestored", EDGE),    # unclean exit closes the connection, not the response
     ("MCMutFinallyNoRelease", "SlotsRestored", SMALL),
     ("MCMutCloseNoRelease", "SlotsRestored", SMALL),
     ("MCMutExcept", "OnlyUrllib3Errors", SMALL),
@@ -315,7 +327,8 @@ def _emit_shard(args):
     """One emission shard of one or more plans: TLC (1 worker) checks the invariants on its share of the histories
     and prints each finished history; every printed history is replayed on the real code at once; the traces are
     judged by TLC in batches (one Judge for all the plans of the task, so small plans share a validation JVM)."""
-    plans, k, s = args
+    plans, k, s = args           # a plan with shards=1 is run whole by shard 0 only
+    plans = [(n, p) for n, p in plans if p.get("shards") != 1 or s == 0]
     _warm()
     j = Judge()
     per_plan = {}
@@ -335,7 +348,8 @@ def _emit_shard(args):
             j.add(json.loads(_unq(m.group(1))), True)
             return True
 
-        r = tlc.run("MC_Pool", plan_cfg(plan, k=k, s=s, emit=True), workers=1, on_line=on_line, timeout=6 * 3600,
+        kk = 1 if plan.get("shards") == 1 else k
+        r = tlc.run("MC_Pool", plan_cfg(plan, k=kk, s=s, emit=True), workers=1, on_line=on_line, timeout=6 * 3600,
                     heap="3g", expect_fail=True)
         per_plan[name] = {"emitted": emitted, "violated": r.violated, "error": r.error, "generated": r.generated,
                           "distinct": r.distinct, "depth": r.depth, "wall": r.wall}
@@ -439,6 +453,9 @@ def monitor_selftest():
 
 
 # ------------------------------------------------------------------------------ random histories
+HEAD_SYMS = ["ok_ka", "ok_close", "ok_chunked", "ok_10", "r_eof", "r_timeout", "c_refused", "s204_ka"]
+
+
 def random_scenario(rng, maxreqs=6):
     cfg = {"n": rng.choice([1, 2, 3]), "block": rng.random() < 0.5, "retries": rng.choice(["F", "0", "1", "R2"]),
            "route": rng.choice(["direct", "fwd"])}
@@ -450,8 +467,12 @@ def random_scenario(rng, maxreqs=6):
         if rng.random() < 0.08:
             steps.append({"op": "req", "id": i, "how": "badarg", "atts": []})
             continue
-        atts = [rng.choice(syms) if rng.random() < 0.7 else "ok_ka" for _ in range(4)]
-        steps.append({"op": "req", "id": i, "how": "", "atts": atts})
+        if rng.random() < 0.12:
+            atts = [rng.choice(HEAD_SYMS) for _ in range(4)]
+            steps.append({"op": "req", "id": i, "how": "head", "atts": atts})
+        else:
+            atts = [rng.choice(syms) if rng.random() < 0.7 else "ok_ka" for _ in range(4)]
+            steps.append({"op": "req", "id": i, "how": "", "atts": atts})
         live.append(i)
         while live and (rng.random() < 0.6 or len(live) > 4):
             x = live.pop(rng.randrange(len(live)))
@@ -572,7 +593,7 @@ def run(rep):
     # quick: a small dedicated plan that still takes every action; thorough: the "2req" plan itself, whose Finish
     # count is then compared with what the shards emitted
     covplan = dict(COVPLAN_QUICK) if quick else dict(plans[1][1])
-    devs = DEVIATIONS[:6] if quick else DEVIATIONS
+    devs = DEVIATIONS[:8] if quick else DEVIATIONS
     nrand, chunks = (1600, 8) if quick else (60000, 48)      # chunking independent of VERIF_JOBS: same seed,
     per = nrand // chunks                                       # same histories on any machine
     # One task list, heaviest first, so that the JVMs of stage 1 overlap with emission / replay / validation:
@@ -600,8 +621,9 @@ def run(rep):
     eo = [o for o in outs if o["kind"] == "emit"]
     for name, plan in plans:
         po = [o["per_plan"][name] for o in eo if name in o["per_plan"]]
-        if len(po) != k:
-            raise tlc.MachineryError(f"plan {name}: {len(po)} of {k} shards reported")
+        kk = 1 if plan.get("shards") == 1 else k
+        if len(po) != kk:
+            raise tlc.MachineryError(f"plan {name}: {len(po)} of {kk} shards reported")
         for o in po:
             if o["violated"] or o["error"]:
                 rep.violation("ModelViolatesRules", f"TLC: {o['violated'] or o['error']} in plan {name}", None)
